@@ -421,6 +421,18 @@ class Inventory:
                 if iv and 2 <= iv[0] and iv[1] <= 36:
                     s.status, s.how = "proven", "radix argument in [%d,%d] within 2..=36" % iv
             return
+        if s.kind == "arith-call":
+            m = re.search(r"::(ilog|ilog2|ilog10)$", s.detail or "")
+            if m and t["args"]:
+                iv = an.op_iv(st, t["args"][0])
+                okx = iv is not None and iv[0] >= 1
+                okb = True
+                if m.group(1) == "ilog":
+                    ib = an.op_iv(st, t["args"][1], "u64") if len(t["args"]) > 1 else None
+                    okb = ib is not None and ib[0] >= 2
+                if okx and okb:
+                    s.status, s.how = "proven", "logarithm of a value >= 1%s" % (" to a base >= 2" if m.group(1) == "ilog" else "")
+            return
         if s.kind == "byteorder":
             m = BYTEORDER.search(s.detail)
             need = int(m.group(4)) // 8
